@@ -28,7 +28,7 @@ def c38Step (line : String) : String :=
     -- one converter step on a tnetstring-encoded state: decode (C36 model), convert, encode
     match v.toNat?, hexOr h with
     | some v, some b =>
-      match MitmVerif.C36.popTop 64 b, MitmVerif.C38Conv.conv v with
+      match MitmVerif.C36.popTop 64 b, (MitmVerif.C38Conv.conv v <|> MitmVerif.C38Conv.convOld v) with
       | .ok (.dict kvs, []), some f =>
         match f kvs with
         | some d' => "ok " ++ showBytes (MitmVerif.C36.dumps (.dict d'))
